@@ -335,6 +335,40 @@ def run_overlap(ctx, probes, ms, tag="overlap"):
     return rows
 
 
+# A data race that the UNCHANGED docker scanner has and that does not touch the property: every Scan calls
+# moby.WithHost, which calls sockets.ConfigureTransport on the scanner's shared *http.Transport and re-assigns
+# tr.Proxy / tr.Dial (always to equivalent values) while other workers' requests read them.
+BENIGN_RACES = ["sockets.ConfigureTransport"]
+
+
+def race_overlap(ctx):
+    """thorough: the overlapping-scans stage under the Go race detector; every report except the known benign one is a
+    finding"""
+    if not ctx.harness_build("c10", race=True):
+        return
+    exe = os.path.join(verif.HBIN, "c10-race")
+    args = ["-out", "overlap_race.jsonl", "-overlap", "1500", "-overlap-ms", "20000", "-seed", str(ctx.seed)]
+    try:
+        rc, out = verif.sh([exe] + args, timeout=1800, env=dict(verif.GOENV, GORACE="halt_on_error=0 exitcode=0"),
+                           cwd=ctx.work)
+    except Exception as e:  # timeout
+        ctx.info.append("race-detector run of the overlapping-scans stage did not finish: %s" % e)
+        return
+    ctx.checker_cmds.append("harness c10-race " + " ".join(args))
+    reports = [b for b in out.split("==================") if "WARNING: DATA RACE" in b]
+    benign = [b for b in reports if any(k in b for k in BENIGN_RACES)]
+    other = [b for b in reports if b not in benign]
+    ctx.info.append("race-detector run of the overlapping-scans stage: %d reports, %d of them the known benign "
+                    "http.Transport reconfiguration by moby.WithHost (present in the unchanged code)" % (len(reports), len(benign)))
+    if other:
+        path = ctx.write_replay("race-c10", {"property": "C10", "what": "data race reported by the Go race detector when one "
+                                             "scanner is shared by 20 goroutines", "report": other[0][:4000],
+                                             "cmd": "harness c10-race " + " ".join(args)})
+        ctx.findings.append({"key": "race:c10", "what": "data race in Scanner.Scan shared by many goroutines", "replay": path})
+    elif rc != 0:
+        ctx.info.append("race run of c10 exited with %d" % rc)
+
+
 def gen_and_build(ctx):
     """Translator + Coq build.  coq/Gen is shared by all checks: a check of another property running at the same time
     against another tree may rewrite Gen/ProbeConsts.v between our translation and our build; detect that (content
@@ -409,8 +443,7 @@ def run(ctx):
         # many workers, one scanner, overlapping probes of different targets (always; ~1 s in quick)
         run_overlap(ctx, 3000 if quick_tier else 60000, 3000 if quick_tier else 40000)
         if not quick_tier:
-            ctx.harness_race_run("c10", ["-out", "overlap_race.jsonl", "-overlap", 1500, "-overlap-ms", 20000, "-seed", ctx.seed],
-                                 "in docker/elastic Scanner.Scan when one scanner is shared by 20 goroutines")
+            race_overlap(ctx)
     if rows:
         rows, bad = settle(ctx, rows, "cases", bool(model_ok))
         if model_ok:
